@@ -51,6 +51,12 @@ theorem nonzero_single_denoms (d : Denom) (x : Nat) (k : Denom) (h : k ∈ (nonz
   · simp at h
   · simpa using h
 
+theorem zero_of_not_mem_single (d : Denom) (x : Nat) (h : d ∉ (nonzero [(d, x)]).map (·.1)) : x = 0 := by
+  rw [nonzero_cons] at h
+  by_cases hx : x = 0
+  · exact hx
+  · simp [hx] at h
+
 /-- the denoms of the returned lists are rule denoms -/
 theorem cacl_denoms : ∀ {rs : List Rule} {f : Farmer} {δ : Int} {rw db : CoinList},
     caclRewards rs f δ = some (rw, db) →
@@ -113,11 +119,7 @@ theorem cacl_spec : ∀ {rs : List Rule} {f : Farmer} {δ : Int} {rw db : CoinLi
         · by_cases hm : r'.denom ∈ (nonzero [(r'.denom, debt.toNat)]).map (·.1)
           · rw [amountOf_append_left _ _ _ hm, amountOf_nonzero_single]; simp only [if_true]; omega
           · rw [amountOf_append _ _ _ hm, amountOf_eq_zero_of_not_mem _ _ hnotdb]
-            have : debt.toNat = 0 := by
-              rw [nonzero_cons] at hm
-              split at hm
-              · assumption
-              · simp at hm
+            have : debt.toNat = 0 := zero_of_not_mem_single _ _ hm
             omega
         · by_cases hm : r'.denom ∈ (nonzero [(r'.denom, if f.locked > 0 then (tot - (amountOf f.debt r'.denom : Int)).toNat else 0)]).map (·.1)
           · rw [amountOf_append_left _ _ _ hm, amountOf_nonzero_single]; simp only [if_true]
@@ -127,11 +129,8 @@ theorem cacl_spec : ∀ {rs : List Rule} {f : Farmer} {δ : Int} {rw db : CoinLi
               omega
             · rfl
           · rw [amountOf_append _ _ _ hm, amountOf_eq_zero_of_not_mem _ _ hnotrw]
-            have hz : (if f.locked > 0 then (tot - (amountOf f.debt r'.denom : Int)).toNat else 0) = 0 := by
-              rw [nonzero_cons] at hm
-              split at hm
-              · assumption
-              · simp at hm
+            have hz : (if f.locked > 0 then (tot - (amountOf f.debt r'.denom : Int)).toNat else 0) = 0 :=
+              zero_of_not_mem_single _ _ hm
             split
             · rename_i hl
               simp only [hl, if_true] at hz
